@@ -42,6 +42,7 @@ class EvalContext(metaclass=NamespaceableMeta):
             if key in self:
                 ret = super().__getitem__(key)
                 if not isinstance(ret, EvalContext.PartialChild):
+                    self._eval_ctx._use_evaluated(NodePath(self._path + [key]), self._cfgobj[key])
                     return ret
                 # only a placeholder, created when something below "key" was evaluated
                 # through a direct reference - the node itself still has to be evaluated
@@ -91,6 +92,8 @@ class EvalContext(metaclass=NamespaceableMeta):
 
         self._require_all_safe = False
         self._eval_stack = []
+        self._unsafe_involved = [] # one flag per evaluation in progress: did an unsafe node take part in it?
+        self._unsafe_results = set() # paths of already evaluated values which unsafe nodes took part in computing
 
         self.user_data = None
 
@@ -119,9 +122,21 @@ class EvalContext(metaclass=NamespaceableMeta):
         finally:
             self._require_all_safe = old
 
+    def _use_evaluated(self, path, node=None):
+        ''' Should be called whenever an already evaluated value is handed out instead of evaluating a node:
+            the safety gate applies to it exactly as if it was being evaluated now.
+        '''
+        if str(path) not in self._unsafe_results:
+            return
+        if self._require_all_safe:
+            raise errors.UnsafeError(f'Note: the current context requires all evaluated nodes to be safe but the already evaluated value under this path was computed from at least one !unsafe node - see chained exceptions for more information', node, str(path))
+        if self._unsafe_involved:
+            self._unsafe_involved[-1] = True
+
     def get_node(self, *path, **kwargs):
         path = NodePath.get_list_path(*path)
         if str(path) in self._eval_cache:
+            self._use_evaluated(path)
             return self._eval_cache[str(path)]
         return self.cfg.ayns.get_node(path, **kwargs)
 
@@ -138,6 +153,7 @@ class EvalContext(metaclass=NamespaceableMeta):
                 raise errors.UnsafeError(f'Note: the current context requires all evaluated nodes to be safe - see chained exceptions for more information', cfgobj, str(prefix))
 
         if id(cfgobj) in self._eval_cache_id:
+            self._use_evaluated(prefix, cfgobj)
             return self._eval_cache_id[id(cfgobj)]
 
         evaluated_parent = None
@@ -149,7 +165,17 @@ class EvalContext(metaclass=NamespaceableMeta):
 
             evaluated_parent = enode
 
-        evaluated_cfgobj = cfgobj.ayns.on_evaluate(prefix, self)
+        self._unsafe_involved.append(not cfgobj.ayns.safe)
+        try:
+            evaluated_cfgobj = cfgobj.ayns.on_evaluate(prefix, self)
+        finally:
+            unsafe_involved = self._unsafe_involved.pop()
+            if unsafe_involved and self._unsafe_involved:
+                self._unsafe_involved[-1] = True
+
+        if unsafe_involved:
+            self._unsafe_results.add(str(prefix))
+
         if evaluated_parent is not None:
             evaluated_parent[prefix[-1]] = evaluated_cfgobj
 
@@ -171,6 +197,7 @@ class EvalContext(metaclass=NamespaceableMeta):
         self._ecfg = EvalContext.PartialChild(NodePath(), self, self._cfg)
         self._eval_cache.clear()
         self._eval_cache_id.clear()
+        self._unsafe_results.clear()
         self.user_data = Bunch()
 
         try:
